@@ -219,10 +219,8 @@ func genSignal(r *vh.Rand, tier string) []string {
 		shots = v
 	}
 	var out []string
-	if shots > 0 { // both signals with full-speed reporters (a large unflushed buffer at the signal)
-		out = append(out, fmt.Sprintf("signal INT %d 4 0 0", 500+r.Intn(400)))
-	}
-	if shots > 1 {
+	// (corpus/C06/seeds.txt holds one more shot: SIGINT, 4 full-speed reporters)
+	if shots > 1 { // full-speed reporters: a large unflushed buffer at the signal
 		out = append(out, fmt.Sprintf("signal TERM %d 4 0 0", 350+r.Intn(300)))
 	}
 	if shots > 2 {
